@@ -143,3 +143,89 @@ def bounds():
 
 def outside():
     return ["v4 (fork, step) cases outside the seeded sample; v4 Modified-metric spellings other than MSI/MSA (by C06 the score depends on effective values only)"]
+
+
+def task_fork_all_steps(digits):
+    """one macrovector fork, ALL metric steps at once: object A from the variables (its
+    macrovector fixed by the fork), object B from the vector in which the metric selected by a
+    fresh variable `which` is raised by one severity step (where it is not already at its most
+    severe value).  Both real constructors run in one session; every pair of reachable scores
+    (A = s, B = t) with t < s must have an unsatisfiable joint guard."""
+    from . import relational as R
+    from . import score4
+    from .mono import num
+
+    chk = Check("C14")
+    sess = Session(npat=512)
+    m, vc = sess.m, sess.vc
+    label = "v4 mv=" + "".join(str(d) for d in digits) + " all steps"
+    vars_ = sess.assign_vars(4, only=[x for x in EFFECTIVE_VARS])
+    smod, d, e, items = score4.spec_macrovector(sess, vars_)
+    g = score4.mv_guard(sess, items, digits)
+    if m.is_sat(g, "vacuity") is not True:
+        chk.absorb(sess)
+        return chk.to_dict()
+    m.restrict(g, nsamples=192)
+    which = m.new_var("which", list(EFFECTIVE_VARS))
+    g_ = G.GRAMMARS[4]
+    written = {}
+    for met, _ in g_["metrics"]:
+        if met not in vars_:
+            written[met] = R.Written(m.FALSE, met + ":X")
+            continue
+        var = vars_[met]
+        w = m.atom(which, met)
+        order = STEP_ORDER[met]
+        pairs = []
+        for lab in var.domain:
+            if lab is ABSENT:
+                continue
+            if lab in order and order.index(lab) + 1 < len(order):
+                nxt = order[order.index(lab) + 1]
+                pairs.append((m.AND(m.atom(var, lab), w), met + ":" + nxt))
+                pairs.append((m.AND(m.atom(var, lab), m.NOT(w)), met + ":" + lab))
+            else:
+                pairs.append((m.atom(var, lab), met + ":" + lab))
+        pres = m.NOT(m.atom(var, ABSENT)) if ABSENT in var.index else m.TRUE
+        rest = m.NOT(m.or_all([x for x, _ in pairs]))
+        pairs.append((rest, met + ":X"))
+        written[met] = R.Written(pres, vc.mk_union(pairs, sweep=False))
+    veca = sess.vector_from_vars(4, vars_)
+    vecb = R.vector_from_written(sess, 4, vars_, written)
+    mod = sess.load("cvss")
+    C.set_epoch(1)
+    cls = mod.globals["CVSS4"]
+
+    def mk_replay(model, what):
+        parts = ["CVSS:4.0"]
+        for met, _ in g_["metrics"]:
+            w = written[met]
+            if m.eval_nodes([w.pres], model)[0]:
+                parts.append(sess.concretize(w.val, model))
+        return {"kind": "c14", "version": 4, "a": sess.vector_string(4, model), "b": "/".join(parts), "what": what}
+
+    t0 = time.time()
+    a, raised = sess.call(cls, [veca])
+    for cond, exc in raised:
+        O.must_not(sess, chk, vc.c_any(cond), "%s: constructor raises on the less severe vector" % label, mk_replay)
+    ta = time.time() - t0
+    t0 = time.time()
+    b, raised = sess.call(cls, [vecb])
+    for cond, exc in raised:
+        O.must_not(sess, chk, vc.c_any(cond), "%s: constructor raises on the more severe vector" % label, mk_replay)
+    tb = time.time() - t0
+    sa, sb = a.attrs.get("base_score"), b.attrs.get("base_score")
+    npairs = 0
+    t0 = time.time()
+    for gi, si in vc.alts(sa):
+        for hj, tj in vc.alts(sb):
+            if si is C.UNBOUND or tj is C.UNBOUND or si is None or tj is None:
+                continue
+            if num(tj) < num(si):
+                npairs += 1
+                O.must_not(sess, chk, m.AND(gi, hj), "%s: score %r on the less severe vector, %r after raising one metric" % (label, si, tj), mk_replay)
+    chk.extra["order_violating_pairs_refuted"] = npairs
+    chk.extra["forks_all_steps"] = 1
+    chk.extra["timing"] = [{"fork": label, "a_s": round(ta, 1), "b_s": round(tb, 1), "compare_s": round(time.time() - t0, 1), "nodes": len(m.nodes)}]
+    chk.absorb(sess)
+    return chk.to_dict()
